@@ -167,7 +167,7 @@ func (r *replica) execute(si int, atxs []evmutil.ATx, want *[2][]interface{}) bo
 	if r.gate {
 		release = make(chan struct{})
 		verifhook.GateFn = func(site string) {
-			if site == "evm.tryValidate.failed" {
+			if site == "evm.tryValidate.failed" || site == "evm.txQueue.afterInit" {
 				select {
 				case <-release:
 				case <-time.After(40 * time.Millisecond):
